@@ -13,10 +13,31 @@ pub fn roots() -> Vec<Model> {
     ROOTS_TXT
         .lines()
         .map(|l| l.trim())
-        .filter(|l| !l.is_empty() && !l.starts_with('#'))
+        .filter(|l| !l.is_empty() && !l.starts_with('#') && !l.starts_with("line "))
         .map(|l| l.strip_prefix("reachable ").unwrap_or(l))
         .map(|l| decode(l, false).unwrap_or_else(|| panic!("curated root is not a canonical record: {}", l)).0)
         .collect()
+}
+
+/// Opening lines from the standard start position (boot = start constructor + these moves).
+pub fn lines() -> Vec<Vec<MMove>> {
+    ROOTS_TXT
+        .lines()
+        .filter_map(|l| l.trim().strip_prefix("line "))
+        .map(|l| l.split_whitespace().map(|m| MMove::parse(m).unwrap_or_else(|| panic!("bad move in curated line: {}", m))).collect())
+        .collect()
+}
+
+/// The curated slot (run index % 8 == 4) alternates between records and opening lines.
+pub fn line_for(index: u64) -> Option<Vec<MMove>> {
+    if index % 8 != 4 || (index / 8) % 3 != 2 {
+        return None;
+    }
+    let l = lines();
+    if l.is_empty() {
+        return None;
+    }
+    Some(l[((index / 24) % l.len() as u64) as usize].clone())
 }
 
 /// Is this (canonical Shredder) record one of the curated roots marked as reachable by legal play?
@@ -49,6 +70,8 @@ pub struct Gen {
     pub swarm: Swarm,
     pub produced: usize,
     pub swept: bool,
+    /// moves to play first (curated opening line)
+    pub prefix: Vec<MMove>,
     last_delicate: bool,
 }
 
@@ -75,6 +98,7 @@ pub fn boot_for(base_seed: u64, index: u64, rng: &mut Rng, roots: &[Model]) -> B
             let p = (j.wrapping_mul(7919) + offset) % 921_600;
             Boot::Start((p % 960) as u32, (p / 960) as u32)
         }
+        4 if line_for(index).is_some() => Boot::Start(518, 518),
         4 => {
             let m = &roots[((index / 8) % roots.len() as u64) as usize];
             Boot::Text(m.to_fen(true), pick_route(rng, m))
@@ -130,7 +154,7 @@ impl Gen {
             bias_rights: [0, 3, 8][rng.below(3) as usize],
             after_event_fault: if fault_free { 0 } else { [0, 300, 700][rng.below(3) as usize] },
         };
-        Gen { prop, rng, swarm, produced: 0, swept: false, last_delicate: false }
+        Gen { prop, rng, swarm, produced: 0, swept: false, prefix: vec![], last_delicate: false }
     }
 
     fn choose_move(&mut self, w: &World) -> Option<MMove> {
@@ -433,7 +457,7 @@ impl Gen {
             }
             Prop::C13 => Op::SamePos,
             Prop::C15 => {
-                if !self.swept && self.rng.chance(1, 4) {
+                if (!self.swept && self.rng.chance(1, 3)) || self.rng.chance(1, 120) {
                     self.swept = true;
                     Op::Sweep
                 } else {
@@ -458,6 +482,14 @@ impl Gen {
 
     /// Next operation, or None when the run is over.
     pub fn next(&mut self, w: &World) -> Option<Op> {
+        if !self.prefix.is_empty() {
+            let mv = self.prefix.remove(0);
+            if w.legal.contains(&mv) {
+                self.last_delicate = true;
+                return Some(Op::Play(mv, [Via::Play, Via::TryPlay, Via::Unchecked][self.rng.below(3) as usize]));
+            }
+            self.prefix.clear();
+        }
         if self.produced >= self.swarm.len {
             return None;
         }
